@@ -96,7 +96,7 @@ func (s *sup) start(start, exec *core.FuncDecl) {
 					reset[f] = true
 				}
 			}
-			if callsField(ev, s.f("ctxCancel")) {
+			if g.callsFieldAt(i, s.f("ctxCancel")) {
 				cancelled = true
 			}
 			if ev.Kind == core.KAssign && ev.Rhs != nil && ev.RhsIdx <= 0 {
@@ -346,7 +346,7 @@ func (s *sup) api(start, exec *core.FuncDecl) {
 			started, detached, rearmed := false, false, false
 			var lookupOK *types.Var // the comma-ok variable of the latest lookup in the slot
 			for i, ev := range p.Events {
-				if callsField(ev, s.f("ctxCancel")) {
+				if g.callsFieldAt(i, s.f("ctxCancel")) {
 					cancelCalls++
 				}
 				if ev.Kind == core.KAssign && ev.RhsIdx == 1 && ev.Rhs != nil {
@@ -589,7 +589,7 @@ func (s *sup) keyedExtras() {
 				g := prepare(c, p)
 				cancelled := false
 				for i, ev := range p.Events {
-					if callsField(ev, s.f("ctxCancel")) {
+					if g.callsFieldAt(i, s.f("ctxCancel")) {
 						cancelled = true
 					}
 					if ev.Kind == core.KCall && ev.Builtin == "delete" {
@@ -862,23 +862,51 @@ func (s *sup) routineExtras() {
 	}
 	// the rebuild function: the StateRoutineContainer method that wraps state and state routine into a
 	// Routine closure (func(context.Context) error) — found by that closure, not by its name
-	var rebuild *core.FuncDecl
-	for _, d := range pkgDecls(c, "routine") {
-		if rn := core.RecvNamed(d.Obj); rn == nil || rn.Obj().Name() != "StateRoutineContainer" {
-			continue
-		}
-		d := d
+	var rebuild, litDecl *core.FuncDecl
+	hasRoutineLit := func(d *core.FuncDecl) bool {
+		found := false
 		ast.Inspect(d.Decl.Body, func(n ast.Node) bool {
 			lit, ok := n.(*ast.FuncLit)
-			if !ok || rebuild != nil {
-				return rebuild == nil
+			if !ok || found {
+				return !found
 			}
 			if sig, ok := d.Pkg.TypesInfo.TypeOf(lit).(*types.Signature); ok && sig.Params().Len() == 1 && sig.Results().Len() == 1 &&
 				isContextType(sig.Params().At(0).Type()) && isErrorType(sig.Results().At(0).Type()) {
-				rebuild = d
+				found = true
 			}
-			return true
+			return !found
 		})
+		return found
+	}
+	isStateMethod := func(d *core.FuncDecl) bool {
+		rn := core.RecvNamed(d.Obj)
+		return rn != nil && rn.Obj().Name() == "StateRoutineContainer"
+	}
+	// … directly, or in a plain function the method calls (bindStateRoutine(routine, state))
+	for _, d := range pkgDecls(c, "routine") {
+		if isStateMethod(d) && hasRoutineLit(d) && rebuild == nil {
+			rebuild, litDecl = d, d
+		}
+	}
+	if rebuild == nil {
+		for _, d := range pkgDecls(c, "routine") {
+			if !isStateMethod(d) || rebuild != nil {
+				continue
+			}
+			d := d
+			ast.Inspect(d.Decl.Body, func(n ast.Node) bool {
+				call, ok := n.(*ast.CallExpr)
+				if !ok || rebuild != nil {
+					return rebuild == nil
+				}
+				if f, _ := typeutil.Callee(d.Pkg.TypesInfo, call).(*types.Func); f != nil && f.Pkg() == d.Obj.Pkg() {
+					if hd := c.Prog.Decl(f.Origin()); hd != nil && !isStateMethod(hd) && hd.Decl.Recv == nil && hasRoutineLit(hd) {
+						rebuild, litDecl = d, hd
+					}
+				}
+				return true
+			})
+		}
 	}
 	if rebuild == nil {
 		c.MissingAnchor("R12", "routine.StateRoutineContainer: the method that wraps the state into a Routine closure")
@@ -916,8 +944,8 @@ func (s *sup) routineExtras() {
 			})
 		}
 	}
-	if d := rebuild; d != nil {
-		name := core.FuncName(d.Obj)
+	if d := litDecl; d != nil {
+		name := core.FuncName(rebuild.Obj)
 		n := 0
 		ast.Inspect(d.Decl.Body, func(nd ast.Node) bool {
 			lit, ok := nd.(*ast.FuncLit)
